@@ -96,6 +96,9 @@ def vjoin(a, b):
         return Node(lv_join(a.level, b.level), a.checked and b.checked, a.admitted and b.admitted, a.rec and b.rec)
     if vkey(a) == vkey(b):
         return a
+    for x, y in ((a, b), (b, a)):
+        if isinstance(x, Seq) and x.level is None and isinstance(y, tuple) and y and y[0] == "gen":
+            return y
     if a == MAXNONE and isinstance(b, tuple) and b[0] == "max":
         return b
     if b == MAXNONE and isinstance(a, tuple) and a[0] == "max":
@@ -159,6 +162,9 @@ class IterFlow:
         self.summaries = {}
         self._problem_keys = set()
         self.symref = {}
+        self.loop_iter_values = {}
+        self._helper_stack = []
+        self.get_children_ok = None
 
     # --------------------------------------------------------------- driver
     def strategy_funcs(self):
@@ -228,10 +234,10 @@ class IterFlow:
                 env[prm] = TOPV
         return env
 
-    def analyse(self, f, record=False):
+    def analyse(self, f, record=False, entry=None):
         cfg = CFG(f.node, f.body, name=f.where)
         reach = cfg.reachable_nodes()
-        instate = {cfg.entry.id: (self.entry_env(f), frozenset())}
+        instate = {cfg.entry.id: entry if entry is not None else (self.entry_env(f), frozenset())}
         work = [cfg.entry]
         steps = 0
         rets = []
@@ -264,7 +270,8 @@ class IterFlow:
         ret = None
         for r in rets:
             ret = vjoin(ret, r)
-        self.summaries[f] = ret
+        if entry is None:
+            self.summaries[f] = ret
         return ret
 
     def state_key(self, st):
@@ -330,6 +337,9 @@ class IterFlow:
 
     def facts_join(self, fa, fb):
         out = set(fa & fb)
+        for x, y in ((fa, fb), (fb, fa)):
+            if ("unbounded",) in x and ("unbounded",) not in y:
+                out |= {z for z in y if z[0] == "noabort"}
         for x in fa - fb:
             if x[0] in ("noabort", "abort"):
                 for y in fb - fa:
@@ -363,11 +373,23 @@ class IterFlow:
             self.ev(f, n.cond, env, facts, rec, n)
             return st
         if k == "foriter":
-            self.ev(f, n.ast.iter, env, facts, rec, n)
+            it = self.ev(f, n.ast.iter, env, facts, rec, n)
+            self.loop_iter_values[id(n.ast)] = vjoin(self.loop_iter_values.get(id(n.ast)), it) if id(n.ast) in self.loop_iter_values else it
+            if isinstance(it, tuple) and it[0] == "count":
+                env2 = dict(env)
+                env2["#count%d" % id(n.ast)] = ("int", lv_add(it[1], -1))
+                return (env2, facts)
             return st
         if k == "loopin":
             it = self.ev(f, n.ast.iter, env, facts, False, n)
             env2 = dict(env)
+            if isinstance(it, tuple) and it[0] == "count":
+                key = "#count%d" % id(n.ast)
+                cur = env.get(key, ("int", lv_add(it[1], -1)))
+                nxt = ("int", lv_add(cur[1], 1)) if isinstance(cur, tuple) and cur[0] == "int" else TOPV
+                env2[key] = nxt
+                self.bind(f, n.ast.target, nxt, env2)
+                return (env2, facts)
             self.bind(f, n.ast.target, self.elem(it), env2)
             return (env2, facts)
         if k == "return":
@@ -390,6 +412,19 @@ class IterFlow:
                 env2[s.target.id] = self.binop(s.op, cur, v)
                 return (env2, facts)
             if isinstance(s, ast.Expr):
+                c = s.value
+                if isinstance(c, ast.Call) and isinstance(c.func, ast.Attribute) and c.func.attr in ("append", "extend") \
+                        and isinstance(c.func.value, ast.Name) and isinstance(env.get(c.func.value.id), Seq) and len(c.args) == 1:
+                    v = self.ev(f, c.args[0], env, facts, rec, n)
+                    add = None
+                    if c.func.attr == "append" and isinstance(v, Node):
+                        adm, _ = self.admitted_here(v, facts)
+                        add = Seq(v.level, v.checked, adm)
+                    elif c.func.attr == "extend" and isinstance(v, Seq):
+                        add = v
+                    env2 = dict(env)
+                    env2[c.func.value.id] = vjoin(env[c.func.value.id], add) if add is not None else TOPV
+                    return (env2, facts)
                 self.ev(f, s.value, env, facts, rec, n)
                 return st
             return st
@@ -406,6 +441,8 @@ class IterFlow:
 
     def elem(self, v):
         if isinstance(v, Seq):
+            if v.level is None:
+                return Node(None, True, True, True)  # empty sequence: the loop body never runs
             return Node(v.level, v.checked, v.admitted, v.rec)
         if isinstance(v, tuple) and v[0] == "gen":
             return Node(None, True, True, True)
@@ -442,6 +479,38 @@ class IterFlow:
                 return (env, facts)
             if fv == ("fn", "filter_") and len(c.args) == 1 and isinstance(c.args[0], ast.Name):
                 return (env, facts | {("filter", c.args[0].id, o)})
+        if isinstance(c, ast.Compare) and len(c.ops) == 1:
+            lv = self.ev(f, c.left, env, facts, False, n)
+            rv = self.ev(f, c.comparators[0], env, facts, False, n)
+            op = type(c.ops[0])
+            # `maxlevel is None` / `is not None`
+            for a, b in ((lv, rv), (rv, lv)):
+                if isinstance(a, tuple) and a[0] == "max" and b == MAXNONE and op in (ast.Is, ast.IsNot):
+                    is_none = o if op is ast.Is else not o
+                    return (env, facts | ({("unbounded",)} if is_none else {("bounded",)}))
+            # level > maxlevel  (and the mirrored / negated spellings)
+            lvl, mx, aop = None, None, None
+            if isinstance(lv, tuple) and lv[0] == "int" and isinstance(rv, tuple) and rv[0] == "max":
+                lvl, mx, aop = lv, rv, op
+            elif isinstance(rv, tuple) and rv[0] == "int" and isinstance(lv, tuple) and lv[0] == "max":
+                lvl, mx = rv, lv
+                aop = {ast.Gt: ast.Lt, ast.Lt: ast.Gt, ast.GtE: ast.LtE, ast.LtE: ast.GtE}.get(op)
+            if lvl is not None and aop in (ast.Gt, ast.LtE, ast.GtE, ast.Lt) and lvl[1] not in (None, "TOP"):
+                # normalise to "level > maxlevel" == abort(level)
+                if aop is ast.Gt:
+                    g, aborted = lv_add(lvl[1], mx[1]), o
+                elif aop is ast.LtE:
+                    g, aborted = lv_add(lvl[1], mx[1]), not o
+                elif aop is ast.GtE:  # level >= m  <=>  level + 1 > m
+                    g, aborted = lv_add(lvl[1], mx[1] + 1), o
+                else:  # level < m  <=> not (level + 1 > m)
+                    g, aborted = lv_add(lvl[1], mx[1] + 1), not o
+                return (env, facts | {("abort" if aborted else "noabort", g)})
+        if isinstance(c, ast.Name) and env.get(c.id) == ("group",):
+            if rec:
+                self.problem("S5", f, c, "the truth value of a level group decides the control flow: an admitted level whose nodes are all "
+                             "filtered out (an empty tuple) is treated like the end of the traversal")
+            return (env, facts)
         if isinstance(c, ast.Name) and isinstance(env.get(c.id), Seq):
             return (env, facts | {("nonempty", c.id, o)})
         if isinstance(c, ast.Name) and isinstance(env.get(c.id), tuple) and env[c.id][0] == "abortv":
@@ -454,6 +523,8 @@ class IterFlow:
         """(ok, detail): the value lies within maxlevel at this point"""
         if v.admitted or v.level is None:
             return True, "admitted by construction"
+        if ("unbounded",) in facts:
+            return True, "maxlevel is None on this path"
         if v.level == "TOP":
             return False, "its level is not tracked consistently"
         gs = [g for kind, *rest in facts if kind == "noabort" for g in rest]
@@ -571,9 +642,26 @@ class IterFlow:
         return TOPV
 
     def comp(self, f, e, env, facts, rec, cn):
-        if len(e.generators) != 1 or not isinstance(e.generators[0].target, ast.Name):
+        if not e.generators or not all(isinstance(g.target, ast.Name) for g in e.generators):
             return TOPV
-        g = e.generators[0]
+        cenv = dict(env)
+        for g in e.generators[:-1]:
+            srcv = self.ev(f, g.iter, cenv, facts, rec, cn)
+            if not isinstance(srcv, Seq):
+                return TOPV
+            node = self.elem(srcv)
+            for c in g.ifs:
+                t, pol = c, True
+                if isinstance(t, ast.UnaryOp) and isinstance(t.op, ast.Not):
+                    t, pol = t.operand, False
+                if isinstance(t, ast.Call) and len(t.args) == 1 and isinstance(t.args[0], ast.Name) and t.args[0].id == g.target.id \
+                        and self.ev(f, t.func, cenv, facts, False, cn) == ("fn", "stop") and pol is False and isinstance(node, Node):
+                    node = Node(node.level, True, node.admitted, node.rec)
+                elif rec:
+                    self.problem("S2", f, c, "comprehension condition `%s` on an outer loop variable is not `not stop(x)`" % norm(c))
+            cenv[g.target.id] = node
+        env = cenv
+        g = e.generators[-1]
         src = self.ev(f, g.iter, env, facts, rec, cn)
         if not isinstance(src, Seq):
             return TOPV
@@ -603,6 +691,8 @@ class IterFlow:
         name = fn.attr if isinstance(fn, ast.Attribute) else (fn.id if isinstance(fn, ast.Name) else "")
         args = [self.ev(f, a, env, facts, rec, cn) for a in e.args if not isinstance(a, ast.Starred)]
         kw = {k.arg: self.ev(f, k.value, env, facts, rec, cn) for k in e.keywords}
+        if name == "_get_children" and len(args) == 2 and self.get_children_ok is None:
+            self.get_children_ok = self.verify_get_children()
         if name == "_get_children" and len(args) == 2:
             s, st = args
             if rec:
@@ -618,6 +708,12 @@ class IterFlow:
             return args[0]
         if name == "next" and args and isinstance(args[0], tuple) and args[0][0] == "iterobj":
             return ("group",)
+        if name == "count" and (isinstance(fn, ast.Attribute) or isinstance(fn, ast.Name)):
+            start = args[0] if args else kw.get("start", ("int", ("c", 0)))
+            step = args[1] if len(args) > 1 else kw.get("step", ("int", ("c", 1)))
+            if isinstance(start, tuple) and start[0] == "int" and step == ("int", ("c", 1)):
+                return ("count", start[1])
+            return TOPV
         if name in ("len", "iter", "enumerate", "isinstance"):
             return TOPV
         # user callbacks in value position
@@ -673,6 +769,8 @@ class IterFlow:
                     adm, _ = self.admitted_here(Seq(lvl, True, False), facts)
                     return Seq(lvl, summ.checked, adm)
                 return TOPV
+            if callee.srcname not in ("_iter", "__next", "_get_grandchildren", "_abort_at_level", "_get_children") and callee not in self._helper_stack:
+                return self.call_helper(f, callee, args, kw, facts, rec)
             if callee.srcname == "_abort_at_level":
                 if len(args) == 2 and isinstance(args[0], tuple) and args[0][0] == "int" and isinstance(args[1], tuple) and args[1][0] == "max":
                     g = lv_add(args[0][1], args[1][1])
@@ -680,6 +778,38 @@ class IterFlow:
                         return ("abortv", g, True)  # truthy <=> abort
                 return TOPV
         return TOPV
+
+    def verify_get_children(self):
+        """_get_children(children, stop) returns nodes of its argument only, each with stop(node) false"""
+        g = self.funcs.get(("AbstractIter", "_get_children"))
+        if g is None:
+            raise AnalysisError("anchor AbstractIter._get_children not found")
+        ps = g.posparams
+        env = {ps[0]: Seq(("s", "L", 0), False, True), ps[1]: ("fn", "stop")}
+        self._helper_stack.append(g)
+        try:
+            ret = self.analyse(g, record=False, entry=(env, frozenset()))
+        finally:
+            self._helper_stack.pop()
+        ok = isinstance(ret, Seq) and ret.checked and ret.level in (("s", "L", 0), None)
+        return (ok, ret)
+
+    def call_helper(self, f, callee, args, kw, facts, rec):
+        """context-sensitive analysis of any other member function of the iterator classes"""
+        ps = callee.posparams
+        env = {}
+        for i, prm in enumerate(ps):
+            if i < len(args):
+                env[prm] = args[i]
+            elif prm in kw:
+                env[prm] = kw[prm]
+            else:
+                env[prm] = TOPV
+        self._helper_stack.append(callee)
+        try:
+            return self.analyse(callee, record=rec, entry=(env, frozenset(x for x in facts if x[0] in ("noabort", "abort", "unbounded", "bounded"))))
+        finally:
+            self._helper_stack.pop()
 
     def call_site(self, f, e, callee, args, kw, facts, rec):
         ps = callee.posparams
